@@ -58,10 +58,10 @@ def decodeUtf8 : Nat → List Nat → Option (List Char)
       | _ => none
     else none
 
-/-- `Unit(b)` for `bytes`: `b.decode("utf-8")` (outside any `try`), then the string path -/
+/-- `Unit(b)` for `bytes`: `b.decode("utf-8")`, then the string path -/
 def parseBytes (bs : List Nat) : Except PErr (UExpr Rat) :=
   match decodeUtf8 (bs.length + 1) bs with
-  | none => .error .decodeError
+  | none => .error .unitParseError                     -- UnicodeDecodeError, caught (fix C20-03)
   | some cs => parseChars cs
 
 /-- NAME tokens compared up to `inv_name_alternatives` (`%` is printed for the symbol `percent`) -/
